@@ -6,7 +6,7 @@
 From Coq Require Import List ZArith NArith Bool Arith Lia.
 From EasyML Require Import Base.Sx Model.Shape Model.U64 Model.Fallible Gen.Arith
      Proofs.ShapeP Proofs.C16P Proofs.GenArithP.
-From EasyML Require Model.Views Model.MatrixViews.
+From EasyML Require Model.Views Model.MatrixViews Model.ShapeIter.
 Import ListNotations.
 Open Scope N_scope.
 
@@ -84,4 +84,151 @@ Lemma gen_checked_elements_shape : forall md (sh : shape),
 Proof.
   intros. rewrite gen_checked_elements_eq. unfold checked_elements, shN, lens_of.
   rewrite map_map. reflexivity.
+Qed.
+
+(* ==== second extension wave: elements, compute_strides, reverse_indexes as a whole ==== *)
+
+(* the plain machine product of positive lengths whose ideal product fits a usize is that product *)
+Lemma prod_legacy_ok : forall md l acc, Forall (fun x => 0 < x) l -> acc * prod l <= usize_max ->
+  prod_legacy md l acc = Ok (acc * prod l).
+Proof.
+  intros md. induction l as [|x l IH]; intros acc Hp Hb; cbn [prod_legacy].
+  - rewrite prod_nil, N.mul_1_r. reflexivity.
+  - inversion Hp as [|? ? Hx Hl]; subst. rewrite prod_cons in *.
+    pose proof (prod_pos l Hl) as Hpl.
+    assert (Hax : acc * x <= usize_max) by nia.
+    unfold u_mul. apply N.leb_le in Hax. rewrite Hax. cbn [obind].
+    rewrite IH; [f_equal; lia|exact Hl|lia].
+Qed.
+
+Lemma lens_shN : forall sh : shape, map snd (shN sh) = lens_of sh.
+Proof. intros. unfold shN, lens_of. rewrite map_map. reflexivity. Qed.
+
+(* dimensions::elements (C01 / C10: `elements`) *)
+Lemma gen_elements_shape : forall md (sh : shape),
+  valid_shape sh -> elements sh <= usize_max ->
+  gen_elements md (shN sh) = Ok (elements sh).
+Proof.
+  intros md sh [_ Hpos] He. rewrite gen_elements_eq, lens_shN.
+  rewrite prod_legacy_ok; [f_equal; unfold elements; lia|exact Hpos|unfold elements in He; lia].
+Qed.
+
+Lemma Forall_skipn' {A} (P : A -> Prop) : forall n l, Forall P l -> Forall P (skipn n l).
+Proof. induction n as [|n IH]; intros [|x l] H; cbn [skipn]; auto. inversion H; auto. Qed.
+Lemma Forall_firstn' {A} (P : A -> Prop) : forall n l, Forall P l -> Forall P (firstn n l).
+Proof. induction n as [|n IH]; intros [|x l] H; cbn [firstn]; auto. inversion H; auto. Qed.
+
+Lemma prod_skipn_le : forall n l, Forall (fun x => 0 < x) l -> prod (skipn n l) <= prod l.
+Proof.
+  intros n l H. rewrite <- (firstn_skipn n l) at 2. rewrite prod_app.
+  pose proof (prod_pos _ (Forall_firstn' _ n l H)). nia.
+Qed.
+
+(* compute_strides (C01 / C10: `compute_strides`); D itself is a usize *)
+Lemma gen_compute_strides_shape : forall md (sh : shape),
+  valid_shape sh -> elements sh <= usize_max -> N.of_nat (length sh) <= usize_max ->
+  gen_compute_strides md (shN sh) = Ok (compute_strides sh).
+Proof.
+  intros md sh [_ Hpos] He HD. rewrite gen_compute_strides_eq, lens_shN.
+  unfold compute_strides.
+  replace (length (shN sh)) with (length sh) by (unfold shN; rewrite map_length; reflexivity).
+  rewrite (gen_map_m_ok _ (fun d => prod (skipn (N.to_nat d + 1) (lens_of sh)))).
+  - rewrite map_map. f_equal. apply map_ext. intros d. rewrite Nat2N.id, Nat.add_1_r. reflexivity.
+  - intros x Hx. apply in_map_iff in Hx. destruct Hx as [d [<- Hd]]. apply in_seq in Hd.
+    unfold strides_elem_m, u_add.
+    assert (Hd1 : N.of_nat d + 1 <= usize_max) by lia.
+    apply N.leb_le in Hd1. rewrite Hd1. cbn [obind].
+    rewrite prod_legacy_ok.
+    + f_equal. rewrite N.mul_1_l. f_equal. f_equal. lia.
+    + apply Forall_skipn'. exact Hpos.
+    + pose proof (prod_skipn_le (N.to_nat (N.of_nat d + 1)) _ Hpos). unfold elements in He. lia.
+Qed.
+
+(* reverse_indexes as a whole against C02's model (Views.reverse_indexes) *)
+Lemma gen_reverse_indexes_views : forall md idx (sh : shape) rv,
+  Forall (fun l => 0 < l) (lens_of sh) ->
+  gen_reverse_indexes md (zip3r idx (shN sh) rv) = Ok (Views.reverse_indexes idx sh rv).
+Proof.
+  intros md idx sh rv. rewrite gen_reverse_indexes_eq. revert sh rv.
+  induction idx as [|i idx IH]; intros [|[nm len] sh] [|b rv] Hpos;
+    cbn [shN map zip3r gen_map_m Views.reverse_indexes fst snd]; try reflexivity.
+  inversion Hpos as [|? ? Hl Hrest]; subst. cbn [snd] in Hl.
+  fold (shN sh). unfold rev_elem_m at 1. cbn [snd].
+  pose proof (gen_reverse_views md b i (N.of_nat nm) len Hl) as Hv.
+  destruct b.
+  - rewrite <- (proj1 (gen_reverse_indexes_elem_eq md i (N.of_nat nm) len)), Hv. cbn [obind].
+    rewrite IH by exact Hrest. reflexivity.
+  - cbn [obind]. rewrite IH by exact Hrest. reflexivity.
+Qed.
+
+(* clip_range_shape / clip_masked_shape, one iteration, against C02's model (Views.r_clip, the
+   shapes of range_clip_from / mask_clip_from): the clipped range, the new length, and the
+   subtraction `*length -= mask.length` can never underflow in either build profile *)
+Lemma gen_clip_range_shape_body_views : forall md nm len r,
+  gen_clip_range_shape_body md (nm, len) r =
+  Ok ((nm, Views.r_len (Views.r_clip (to_v r) len)), mkRange (r_start r) (Views.r_len (Views.r_clip (to_v r) len))).
+Proof. intros. rewrite gen_clip_range_shape_body_eq. reflexivity. Qed.
+
+Lemma gen_clip_masked_shape_body_views : forall md nm len r,
+  gen_clip_masked_shape_body md (nm, len) r =
+  Ok ((nm, len - Views.r_len (Views.r_clip (to_v r) len)), mkRange (r_start r) (Views.r_len (Views.r_clip (to_v r) len))).
+Proof.
+  intros. rewrite gen_clip_masked_shape_body_eq. unfold ir_clip. cbn [obind r_length r_start].
+  unfold Views.r_clip, to_v. cbn [Views.r_start Views.r_len].
+  unfold u_sub, sat_sub.
+  replace (N.min (sat_add (r_start r) (r_length r)) len - r_start r <=? len) with true
+    by (symmetry; apply N.leb_le; lia).
+  reflexivity.
+Qed.
+
+(* ShapeIterator's size_hint (C09: the exact remaining length of every tensor iterator) against
+   Model/ShapeIter.v iter_len, for an iterator over a valid shape whose indexes are in range
+   while it is not finished (the iterator's invariant) *)
+Lemma gidu_m_ok : forall md idx (sh : shape) acc,
+  in_range idx (lens_of sh) -> Forall (fun l => 0 < l) (lens_of sh) ->
+  acc + prod (lens_of sh) <= usize_max + 1 ->
+  gidu_m md idx (compute_strides sh) acc = Ok (ShapeIter.gidu idx (compute_strides sh) acc) /\
+  ShapeIter.gidu idx (compute_strides sh) acc < acc + prod (lens_of sh).
+Proof.
+  intros md. induction idx as [|i idx IH]; intros [|[n l] sh] acc Hin Hpos Hb; cbn [in_range lens_of map snd] in Hin; try contradiction.
+  - cbn. split; [reflexivity|lia].
+  - rewrite strides_cons. cbn [gidu_m ShapeIter.gidu lens_of map snd] in *.
+    change (map snd sh) with (lens_of sh) in *.
+    destruct Hin as [Hil Hin]. inversion Hpos as [|? ? Hl Hrest]; subst. rewrite prod_cons in *.
+    pose proof (prod_pos _ Hrest) as Hp.
+    set (s := prod (lens_of sh)) in *.
+    assert (i * s + s <= l * s) by nia.
+    rewrite u_mul_ok by lia. cbn [obind]. rewrite u_add_ok by lia. cbn [obind].
+    destruct (IH sh (acc + i * s) Hin Hrest) as [E1 E2]; [fold s; lia|].
+    split; [exact E1|]. fold s in E2. lia.
+Qed.
+
+Lemma gen_size_hint_iter_len : forall md (it : ShapeIter.shape_iter),
+  let sh := ShapeIter.si_shape it in
+  valid_shape sh -> elements sh <= usize_max -> N.of_nat (length sh) <= usize_max ->
+  length (ShapeIter.si_indexes it) = length sh ->
+  (ShapeIter.si_finished it = false -> in_range (ShapeIter.si_indexes it) (lens_of sh)) ->
+  gen_size_hint md (ShapeIter.si_finished it) (ShapeIter.si_indexes it) (shN sh) =
+  Ok (ShapeIter.iter_len it, Some (ShapeIter.iter_len it)).
+Proof.
+  intros md [sh idx fin] sh0 Hv He HD Hlen Hin. subst sh0. cbn [ShapeIter.si_shape ShapeIter.si_indexes ShapeIter.si_finished] in *.
+  rewrite gen_size_hint_eq. unfold ShapeIter.iter_len. cbn [ShapeIter.si_shape ShapeIter.si_indexes ShapeIter.si_finished].
+  destruct fin; [reflexivity|]. specialize (Hin eq_refl).
+  rewrite Hlen.
+  assert (Hcase : length sh = O \/ exists k, length sh = S k) by (destruct (length sh); [left; reflexivity|right; eexists; reflexivity]).
+  destruct Hcase as [H0|[k Hk]].
+  - rewrite H0. reflexivity.
+  - replace (0 <? N.of_nat (length sh)) with true by (symmetry; apply N.ltb_lt; lia).
+    replace (match length sh with O => 1 | S _ => elements sh - ShapeIter.gidu idx (compute_strides sh) 0 end)
+      with (elements sh - ShapeIter.gidu idx (compute_strides sh) 0) by (rewrite Hk; reflexivity).
+    destruct Hv as [Hnd Hpos].
+    rewrite lens_shN. rewrite prod_legacy_ok by (try exact Hpos; unfold elements in He; lia). cbn [obind].
+    replace (length (shN sh)) with (length sh) by (unfold shN; rewrite map_length; reflexivity).
+    pose proof (gen_compute_strides_shape md sh (conj Hnd Hpos) He HD) as Hs.
+    rewrite gen_compute_strides_eq, lens_shN in Hs.
+    replace (length (shN sh)) with (length sh) in Hs by (unfold shN; rewrite map_length; reflexivity).
+    rewrite Hs. cbn [obind].
+    destruct (gidu_m_ok md idx sh 0 Hin Hpos) as [E1 E2]; [unfold elements in He; lia|].
+    rewrite E1. cbn [obind]. rewrite N.mul_1_l.
+    rewrite u_sub_ok by (unfold elements; lia). reflexivity.
 Qed.
